@@ -119,8 +119,17 @@ func GetEnv(e *sched.Exec) *Env {
 	return env
 }
 
-// Teardown closes both endpoints (client first) and waits for quiescence.
+// Teardown closes both endpoints (client first) and waits for quiescence. It is not part of
+// what the conn-level properties quantify over (the facts are snapshotted before it), so the
+// explorer is told not to branch any more; C12, where closing is the subject, explores its
+// own close and uses TeardownExplored.
 func (env *Env) Teardown() {
+	sched.Freeze()
+	env.TeardownExplored()
+}
+
+// TeardownExplored is Teardown with the explorer still branching.
+func (env *Env) TeardownExplored() {
 	_ = env.Conn.Close()
 	Cancel(env.SCancel)
 	sched.Quiesce()
